@@ -118,7 +118,14 @@ impl<NumericTypes: EvalexprNumericTypes<Int = Self>> EvalexprInt<NumericTypes> f
     }
 
     fn abs(&self) -> EvalexprResult<Self, NumericTypes> {
-        Ok((*self).abs())
+        let result = (*self).checked_abs();
+        if let Some(result) = result {
+            Ok(result)
+        } else {
+            Err(EvalexprError::negation_error(
+                Value::<NumericTypes>::from_int(*self),
+            ))
+        }
     }
 
     fn bitand(&self, rhs: &Self) -> Self {
